@@ -214,10 +214,8 @@ def compare_result(ctx, sim, started, rows, segp, names, ss_seen=False, kind=Non
         for a in range(len(idx) - 1):
             ctx.true(f"time axis strictly increasing [{a}]", idx[a] < idx[a + 1])
         vals = [[f[v].iloc[r] for v in names] for f in frames for r in range(len(f))]
-        if ss_seen:
-            # after a steady-state run only the time axis is compared: the uninterpreted flow has no
-            # semigroup axiom, and restarting on the same trajectory is not a state error
-            rows = []
+        # after a steady-state run the next segment continues from the state the search reached (the row it reported):
+        # the states of later rows are compared like any others
         for j, (t, y) in enumerate(rows):
             for c, v in enumerate(names):
                 ctx.eq(f"state[{j},{v}]", vals[j][c], y[c])
@@ -231,7 +229,7 @@ def compare_result(ctx, sim, started, rows, segp, names, ss_seen=False, kind=Non
             res = sim.get_result().unwrap_or_err()
         ctx.true("get_result carries the same frames", len(res.raw_variables) == len(frames))
         # the fluxes reported for a row are those of its own segment's parameter values (whatever the model holds now)
-        if kind in FLUXES and not ss_seen and len(segp) == len(frames):
+        if kind in FLUXES and len(segp) == len(frames):
             with ctx.impl("fluxes of the result"):
                 fl = res.fluxes
             if len(fl) == len(rows):
@@ -296,6 +294,10 @@ def scenarios(tier, seed):
     # minimal histories for constructs with open findings (kept out of the composites above)
     for h in (("SS",), ("S1", "SS"), ("SS", "S1"), ("UV", "SS"), ("S1", "SS", "S1"), ("S1", "UV", "SS"), ("SS", "TC2")):
         scs.append(Hist("decay", h))
+    # steady-state searches inside longer histories (the search continues from the state reached, later runs continue from its result)
+    for h in (("S1", "SS", "UP", "S1"), ("SS", "UV", "S1"), ("TC2", "SS", "TC2"), ("S1", "UV", "SS", "S1"), ("S1", "UP", "SS", "RD", "S1")):
+        scs.append(Hist("decay", h))
+    scs.append(Hist("chain", ("S1", "SS", "S1")))
     for h in (("S1", "UV", "S1"), ("S1", "UV", "TC2"), ("UV", "S1")):
         scs.append(Hist("timedep", h))
     if tier != "quick":
